@@ -505,7 +505,7 @@ def do_replay(path, h, v, timer):
             print("verdict   : not reproduced")
     else:
         g = gen()
-        r = common.coq_props(PID, extra_files=["Order/Conform.v"])
+        r = coq_obligations()
         print("model     : obligation(s) %s" % ", ".join(obj.get("obligations_not_discharged", [])))
         print("translator: %s" % g["msg"][:500])
         nd = [o for o in r["obligations"] if o not in r["discharged"]]
